@@ -107,4 +107,22 @@ CHECKS = {
             job("lens", "c14", ["TestC14PayloadLensEnum", "TestC14PayloadLens"], 1, 1, 1, 4, run="^TestC14PayloadLensEnum$"),
         ],
     },
+    "C04": {
+        "level": "exploration",
+        "manifest": {
+            "technique": "property-based testing against a reference map: rapid-generated rowid tables laid out by the independent builder with chosen cells per page (depth 1-7, slack separator keys, extreme rowids); the probe set of every table is enumerated completely (present rowids, both neighbours, separators, leaf first/last, 0, +-1, int64 min/max)",
+            "level_text": "Generated tables x complete probe enumeration, oracle = the rowid->row map the builder was given (SQLite confirms sampled images and every violation candidate). Covers Table.Rowid, DB.SelectRowid and PKSelect on INTEGER PRIMARY KEY tables. Sampled over tables, exhaustive over the stated probe classes per table.",
+            "level_note": "Trusts the builder (validated against SQLite 3.40.1 integrity_check + SELECT on a sample and before any report).",
+        },
+        "rule": ("tables: 0-80 rows, 1-4 columns, rowids dense/gapped/random/extreme, cells per leaf 1-4 or as many as fit, fan-out 2-4 or max, separator keys optionally above the left subtree's maximum, "
+                 "page sizes 512/1024/4096, overflowing values, optional INTEGER PRIMARY KEY alias. One evaluation = one table with all its probes (probe counts are reported per depth). "
+                 "Non-trivial = tree depth >= 2. Distinct = fingerprint of the image spec."),
+        "assumptions": ["system libsqlite3 (3.40.1) validates the builder"],
+        "min_nontrivial": {"quick": 200, "thorough": 3000},
+        "required_classes": ["depth=2", "depth=3", "depth=4", "alias=true", "sqlite-validated"],
+        "timeout": {"quick": 300, "thorough": 1500},
+        "jobs": [
+            job("builder", "c04", ["TestC04Builder"], 1500, 20000, 2, 10),
+        ],
+    },
 }
